@@ -1369,6 +1369,8 @@ class LangServer:
                         self.obj_tree.pop(key, None)
                 # Forget the file and everything other files had linked to it
                 self.workspace.pop(filepath, None)
+                for _, other_obj in self.workspace.items():
+                    other_obj.ast.resolve_includes(self.workspace, path=filepath)
                 self.link_version = (self.link_version + 1) % 1000
                 for _, other_obj in self.workspace.items():
                     other_obj.ast.resolve_links(self.obj_tree, self.link_version)
